@@ -69,8 +69,10 @@ func vcGenIDs(rng *vk.Rand, n int) []string {
 	return out
 }
 
+// vcNode returns a READY node whose URI is a distinct, valid host derived
+// from the ID (NewTestURI silently falls back to localhost on invalid hosts).
 func vcNode(id string) *Node {
-	return &Node{ID: id, URI: NewTestURI("http", "h-"+id, 0), State: nodeStateReady}
+	return &Node{ID: id, URI: NewTestURI("http", fmt.Sprintf("h%016x", vk.HashBytes([]byte(id))), 10101), State: nodeStateReady}
 }
 
 // vcPerms calls fn with every permutation of 0..n-1 (Heap's algorithm,
